@@ -146,3 +146,18 @@ package interp
 //@   loop 2
 //@   step function-result-replaces-its-own-slot: rvKind(out[i]) == reflect.Func ==> getFrame(f, n.level).data[n.findex+i] == out[i]
 //@   step only-its-own-slot-is-replaced: forall(k, 0, len(getFrame(f, n.level).data), k != n.findex+i ==> getFrame(f, n.level).data[k] == old(getFrame(f, n.level).data[k]))
+
+// genFunctionWrapper, the host-callable function made for a script function: host argument i is copied
+// into the parameter slot i of a new frame (after the result slots, and after the receiver for a method
+// value); the results handed back are the first numRet slots of that frame, in order.
+//@ lit genFunctionWrapper calls:runCfg (in) (out)
+//@   props C07
+//@   opt safety = off
+//@   opt loops = havoc
+//@   opt fn-values = pure
+//@   opt opaque-calls = *
+//@   opt opaque-havoc = none
+//@   requires [assume] f != nil && n != nil && def != nil && def.typ != nil
+//@   ensures [local:fr] results-are-the-leading-slots-of-the-callee-frame: len(out) == numRet && forall(k, 0, numRet, out[k] == fr.data[k])
+//@   loop 3
+//@   step [next] argument-i-is-copied-into-parameter-slot-i: !isInterfaceSrc(def.typ.arg[i]) || isEmptyInterface(def.typ.arg[i]) ==> rvIface(d[i]) == rvIface(arg) && rvInt(d[i]) == rvInt(arg) && rvString(d[i]) == rvString(arg)
